@@ -21,6 +21,7 @@ typedef std::vector<std::pair<std::string, std::string>> Fields;
 
 struct Case {
   int size = 100;           // 0..100 generation size hint (engines ramp it up)
+  uint64_t index = 0;       // running case index (enumeration harnesses derive their stratum from it)
   bool counting = true;     // false while shrinking / replaying
   bool nontrivial = false;
   uint64_t subevals = 0;    // extra oracle evaluations performed inside this case
